@@ -1081,6 +1081,8 @@ pub fn profile(prop: Prop, env: &Env) -> Profile {
         Prop::C04 => {
             allowed.exotic = true;
             allowed.nonfinite = true;
+            allowed.dup = true;
+            allowed.collide = true;
             p.allowed = allowed;
             p.programs = pick(&|f| !f.tag_clash && !f.key_clash);
         }
@@ -1106,7 +1108,7 @@ pub fn profile(prop: Prop, env: &Env) -> Profile {
             p.allowed = a;
             p.rates_pm = vec![0, 200, 500, 900];
             p.max_leaf_faults = 0;
-            p.max_cb_faults = 0;
+            p.max_cb_faults = 1;
         }
         Prop::C08 => {
             p.programs = pick(&|f| f.strukt || f.tagged);
@@ -1118,7 +1120,7 @@ pub fn profile(prop: Prop, env: &Env) -> Profile {
             a.collide = true;
             p.allowed = a;
             p.rates_pm = vec![0, 60, 150, 300];
-            p.max_cb_faults = 0;
+            p.max_cb_faults = 1;
         }
         Prop::C09 => {
             p.programs = pick(&|f| f.strukt || f.tagged);
